@@ -144,27 +144,54 @@ Proof.
   - exact Hinit.
 Qed.
 
-(* ---------------- the rho path without initial_recovereds ---------------- *)
-(* rho (or nothing) given and no initial_recovereds: the sampled set is duplicate-free and inside
-   the graph, so the run is in the domain of the theorems: its rows pass the C04 checker and row 0
-   is (N - n, n, 0) with n = int(round(N * rho)) *)
-Theorem dsir_rho_rows_accepted : forall g R trec ord rho tmin tmax full fuel out,
+(* ---------------- runs without initial_infecteds (rho, or the default single node) ---------------- *)
+(* the sampled set is duplicate-free, inside the graph and disjoint from initial_recovereds (the random
+   index nodes are drawn among the nodes that are not initially recovered), so a run that returns is in
+   the domain of the theorems: its rows pass the C04 checker and row 0 is (N - n - |R0|, n, |R0|) with
+   n = int(round(N * rho)), or 1 when rho is not given (rho and initial_recovereds are never both given:
+   that is rejected) *)
+Theorem dsir_sampled_rows_accepted : forall g R trec ord r0o rho tmin tmax full fuel out,
   NoDup (gnodes g) -> (forall u v, In u (gnodes g) -> In v (gadj g u) -> In v (gnodes g)) ->
+  NoDup (opt_list r0o) -> (forall v, In v (opt_list r0o) -> In v (gnodes g)) ->
   perm_oracle ord -> (full = true -> pick_sound R) ->
-  reach (discrete_SIR g R trec ord None None rho tmin tmax full fuel) out ->
+  reach (discrete_SIR g R trec ord None r0o rho tmin tmax full fuel) out ->
   let n := match rho with None => 1%Z | Some r => d_round_half_even (Qnat (length (gnodes g)) * r) end in
+  (rho = None \/ r0o = None) /\
   dwf_rowsb true (onestep_of trec) g tmin tmax (so_rows (o_sim out)) = true /\
-  exists rest, so_rows (o_sim out) = (tmin, [(order g - n - 0)%Z; n; 0%Z]) :: rest.
+  exists rest, so_rows (o_sim out) = (tmin, [(order g - n - lenZ (opt_list r0o))%Z; n; lenZ (opt_list r0o)]) :: rest.
 Proof.
-  intros g R trec ord rho tmin tmax full fuel out Hnd Hadj Hord Hpick H. cbv zeta.
-  destruct (dsir_rho g R trec ord None rho tmin tmax full fuel out Hnd H) as [_ [Hn [i0 [Hi0nd [Hi0 [Hlen Hr]]]]]].
-  assert (Hwf : wf_inputb g i0 (opt_list None) = true).
-  { apply wf_inputb_intro; try assumption; cbn [opt_list]; try (intros v []); [constructor|intros v _ []]. }
+  intros g R trec ord r0o rho tmin tmax full fuel out Hnd Hadj Hr0nd Hr0 Hord Hpick H. cbv zeta.
+  destruct (dsir_rho g R trec ord r0o rho tmin tmax full fuel out Hnd H) as [Hcase [Hn [i0 [Hi0nd [Hi0 [Hdisj [Hlen Hr]]]]]]].
+  split; [exact Hcase|].
+  assert (Hwf : wf_inputb g i0 (opt_list r0o) = true) by (apply wf_inputb_intro; assumption).
   destruct (dsir_run _ _ _ _ _ _ _ _ _ _ _ Hwf Hord Hpick Hr) as [K [t [st [rows [hl [tl [Hrun [Hstop [Er _]]]]]]]]].
   split.
   - rewrite Er. exact (drun_rows_accepted _ _ _ _ _ _ _ _ _ _ _ _ _ _ Hrun Hstop).
   - destruct (drun_first _ _ _ _ _ _ _ _ _ _ _ _ _ _ Hrun) as [rest E]. exists rest.
-    rewrite Er, E, (init_status_counts _ i0 _ Hwf). unfold row0_of. cbn [opt_list]. unfold lenZ at 1 3 4. rewrite Hlen. reflexivity.
+    rewrite Er, E, (init_status_counts _ i0 _ Hwf). unfold row0_of.
+    assert (El : lenZ i0 = match rho with None => 1%Z | Some r => d_round_half_even (Qnat (length (gnodes g)) * r) end) by exact Hlen.
+    rewrite El. reflexivity.
+Qed.
+
+(* the same through the percolation wrapper *)
+Theorem psir_sampled_rows_accepted : forall g R ord r0o rho tmin tmax full fuel out,
+  NoDup (gnodes g) -> (forall u v, In u (gnodes g) -> In v (gadj g u) -> In v (gnodes g)) ->
+  NoDup (opt_list r0o) -> (forall v, In v (opt_list r0o) -> In v (gnodes g)) ->
+  perm_oracle ord -> (full = true -> pick_sound R) ->
+  reach (percolation_based_discrete_SIR_R g R ord None r0o rho tmin tmax full fuel) out ->
+  let n := match rho with None => 1%Z | Some r => d_round_half_even (Qnat (length (gnodes g)) * r) end in
+  (rho = None \/ r0o = None) /\
+  dwf_rowsb true true g tmin tmax (so_rows (o_sim out)) = true /\
+  exists rest, so_rows (o_sim out) = (tmin, [(order g - n - lenZ (opt_list r0o))%Z; n; lenZ (opt_list r0o)]) :: rest.
+Proof.
+  intros g R ord r0o rho tmin tmax full fuel out Hnd Hadj Hr0nd Hr0 Hord Hpick H.
+  destruct (psir_is_dsir_on_percolated _ _ _ _ _ _ _ _ _ _ _ H) as [kept [ql [o [Hk [Ho Eo]]]]]. subst out. cbn [add_qlog o_sim].
+  assert (HadjH : forall u v, In u (gnodes (perc_graph g kept)) -> In v (gadj (perc_graph g kept) u) -> In v (gnodes (perc_graph g kept))).
+  { intros u v Hu Hv. cbn [perc_graph gnodes gadj] in *. apply perc_adj_In in Hv. destruct Hv as [Hv|Hv].
+    - apply Hk in Hv. apply gedges_sound in Hv. destruct Hv as [A B]. apply (Hadj u v A B).
+    - apply Hk in Hv. apply gedges_sound in Hv. apply Hv. }
+  exact (dsir_sampled_rows_accepted (perc_graph g kept) (has_edge_rules (perc_graph g kept) R) None ord r0o rho tmin tmax full fuel o
+           Hnd HadjH Hr0nd Hr0 Hord (fun Hf => has_edge_pick_sound _ R (Hpick Hf)) Ho).
 Qed.
 
 (* percolation_based_discrete_SIR with both rho and initial_infecteds: the network is percolated
